@@ -11,9 +11,9 @@
    meaning, so every disagreement is a violation with a concrete replay.
 
    [explain] classifies a disagreement by the known deviation that reproduces
-   the observed verdicts (Quirks.v). *)
+   the observed verdicts. *)
 From Coq Require Import List ZArith NArith Bool.
-From YV Require Import Cond.Syntax Cond.Sem Cond.Quirks Cond.RuleSet.
+From YV Require Import Cond.Syntax Cond.Sem Cond.RuleSet.
 Import ListNotations.
 
 Record case := mkCase {
@@ -46,27 +46,18 @@ Definition agrees_warm (tr : expr -> expr) (fast : bool) (c : case) : bool :=
 Definition check_case (c : case) : bool := agrees (fun e => e) false c.
 Definition spec_case (c : case) : bool := check_case c.
 
-Definition max_var_depth (c : case) : nat :=
-  fold_right Nat.max 0%nat (map (fun r => var_depth (r_cond r)) (c_rules c)).
-
 (* 0: the documented meaning predicts the observation;
-   1: reproduced by the model of constant folding through f64 (finding 10);
    2: reproduced by the model of the `N of` fast path for N <= 0 (findings 6, 11);
-   3: reproduced by both together;
-   4: not reproduced, but the rule set needs more than 64 variable slots
-      (undefined-flag aliasing);
    5: the documented meaning predicts what the implementation reports once
       the pattern search is forced before the first condition is evaluated
       (the lazily emitted call to search_for_patterns was skipped);
-   6, 7: same as 5 together with 1, respectively 2;
-   255: unexplained *)
+   7: 5 together with 2;
+   255: unexplained.
+   (1, 3, 4, 6 were the models of constant folding through f64 and of the
+   undefined-flag aliasing, both repaired in /repo.) *)
 Definition explain (c : case) : N :=
   if check_case c then 0%N
-  else if agrees prefold false c then 1%N
   else if agrees (fun e => e) true c then 2%N
-  else if agrees prefold true c then 3%N
   else if agrees_warm (fun e => e) false c then 5%N
-  else if agrees_warm prefold false c then 6%N
   else if agrees_warm (fun e => e) true c then 7%N
-  else if Nat.leb 65 (max_var_depth c) then 4%N
   else 255%N.
